@@ -118,12 +118,16 @@ class C02(PropCheck):
         if d['section'] == 'wide-total' and d['impl'].startswith('err:'):
             if d['impl'].endswith('@inline.py:skip_first_whitespace') and 'flex' in d['meta'].get('features', ()):
                 return 'flex-item-resume-crash'
+            if (d['impl'] == 'err:TypeError@boxes.py:padding_height'
+                    and {'footnote', 'columns'} <= set(d['meta'].get('features', ()))):
+                return 'columns-footnote-report-typeerror'
         return None
 
     def finding_replays(self):
         return {**pm_stage2.finding_replays(),
                 'flex-item-resume-crash': flex_resume_crash, 'page-groups-indexerror': page_groups_crash,
-                'grid-named-span-hang': grid_named_span}
+                'grid-named-span-hang': grid_named_span,
+                'columns-footnote-report-typeerror': columns_footnote_report_crash}
 
     def judge(self, d):
         if d['impl'].startswith('err:'):
@@ -182,6 +186,18 @@ def grid_named_span():
         if wide_trace.render_outcome(html, limit_s=2) != 'ok':
             return True
     return False
+
+
+COLUMNS_FOOTNOTE_REPORT = (
+    '<style>@page{size:160px 40px;margin:2px}html,body{margin:0}body{font-size:10px;line-height:10px}p{margin:0}'
+    '</style><p>w1</p><div style="columns:2;column-gap:4px"><p>w6</p><p>w10 w11 w12<span style="float:footnote">w8'
+    '</span> w13</p></div>')
+
+
+def columns_footnote_report_crash():
+    """The last footnote of a page reported from a multi-column container: _report_footnotes reads the margin height
+    of the emptied footnote area, whose height is 'auto' since repair 84e5b27 (TypeError)."""
+    return wide_trace.render_outcome(COLUMNS_FOOTNOTE_REPORT).startswith('err:TypeError')
 
 
 def page_groups_crash():
